@@ -198,6 +198,17 @@ impl<Fd: AsFd> FdExt for Fd {
     fn reopen(&self, procfs: &ProcfsHandle, mut flags: OpenFlags) -> Result<OwnedFd, Error> {
         let fd = self.as_fd();
 
+        // Handles only refer to existing files: re-opening must never create
+        // anything.
+        if flags.intersects(OpenFlags::O_CREAT | OpenFlags::O_EXCL)
+            || flags.contains(OpenFlags::O_TMPFILE)
+        {
+            Err(ErrorImpl::InvalidArgument {
+                name: "flags".into(),
+                description: "reopen flags cannot contain O_CREAT, O_EXCL or O_TMPFILE".into(),
+            })?
+        }
+
         // For file descriptors referencing a symlink (i.e. opened with
         // O_PATH|O_NOFOLLOW) there is no logic behind trying to do a "reopen"
         // operation, and you just get confusing results because the reopen
